@@ -145,11 +145,36 @@ NOT_APPLICABLE = {
 
 PENDING = {}  # properties whose checks are still being built would be listed here as not applicable
 
+# rules added after the seeded changes (DESIGN.md section 4a); appended to the claim text
+ADDED = {
+    'C01': 'Also: Thm.substitution collects one type instantiation from hypotheses and proposition before substituting (K8); '
+           'memo tables of recursive term helpers are keyed by all recursion parameters (K9).',
+    'C02': 'Also: Proof.find_item refuses negative identifier components (P8); a line without a rule completes only without a theorem (P9).',
+    'C03': 'Also: memo keys of recursive helpers in kernel/term.py cover every parameter of the recursion (I5).',
+    'C04': 'Also: where the fast path and the expansion of a macro both beta-normalise, they do so under the same conditions (M6).',
+    'C05': 'Also: coercion branches (of_nat / of_int) delegate to the evaluator of the source type (T5); the Python comparison '
+           'in each comparison branch is the operator of that branch (T6).',
+    'C06': 'Also: the real-valued alias for of_nat v is used only for variables not bound by a translated quantifier (Z1, sixth instance).',
+    'C07': 'Also: every binder-printing branch registers the chosen bound-variable name while its body is printed (W4).',
+    'C08': 'Also: unification of two types of different non-internal kinds never succeeds without a union / recursive unify (U5).',
+    'C09': 'Also: eta-contraction of an instantiation happens only behind a whole-term freeness test (N4).',
+    'C10': 'Also: process-wide memo tables of logic/auto.py are written only under the conditions under which they are read (V4); '
+           'no loop of a comparison function used to sort normal forms leaves in its first iteration on every path (V5).',
+    'C11': 'Also: the disjointness helper of the self-reference guard answers "disjoint" only for two type constructors (D4).',
+    'C12': 'Also: cached theory content is used only through load_theory_cache validation (L6) and imports are refreshed from the file on reload (L7).',
+    'C13': 'Also: fields shared between a proof item and its copies (args, th) are replaced, never mutated in place (A6).',
+    'C18': 'Also: no floating point in the la_generic evaluators (R4), components cut off by a suffix slice are examined (R5), '
+           'containers filled from premises are consulted (R6).',
+    'C19': 'Also: a constant that may be a proper fraction never gets a printing priority above that of division (E3).',
+}
+
 
 def main():
     checks = []
     for pid in sorted(CLAIMED):
         short, technique, text, note = CLAIMED[pid]
+        if pid in ADDED:
+            text = text + ' ' + ADDED[pid]
         checks.append({
             'property_id': pid,
             'quick_cmd': './check %s --tier quick' % pid,
